@@ -2,7 +2,7 @@
 # usage: tools_runseed.sh <seed-dir under /verif/seeded> [tier] ; applies the patch to /repo, runs the property's check, undoes it
 sd=$1; tier=${2:-quick}
 prop=$(python3 -c "import json,sys; print(json.load(open('$sd/meta.json'))['property'])")
-cd /repo && git apply --3way $sd/patch.diff 2>/dev/null || git apply $sd/patch.diff || { echo "PATCH-FAILED $sd"; git checkout -q -- . ; exit 3; }
+cd /repo && [ -z "$(git status --porcelain)" ] || { echo "REPO-DIRTY"; exit 4; }; git apply $sd/patch.diff || { echo "PATCH-FAILED $sd"; git checkout -q -- . ; exit 3; }
 git -C /repo reset -q
 cd /verif && ./run $prop $tier > /tmp/seedrun_$(basename $sd).log 2>&1; rc=$?
 cd /repo && git checkout -q -- . 
